@@ -617,7 +617,7 @@ Proof.
 Qed.
 
 Lemma consume_qname_safe s : SInv s ->
-  safe (consume_qname text s) (fun '(p, l, s') => Ext s s').
+  safe (consume_qname text s) (fun '(p, l, s') => Ext s s' /\ slice_len l <> 0).
 Proof.
   intros Hs. unfold consume_qname.
   eapply safe_bind; [apply consume_qname_loop_safe; auto; [exact I|lia]|].
@@ -633,8 +633,9 @@ Proof.
   - intros [p l] _. cbv beta iota.
     destruct (negb (slice_len p =? 0) && negb (str_is_name_start (slice_bytes text p)));
       [apply err_from_safe|].
-    destruct (negb (str_is_name_start (slice_bytes text l))); [apply err_from_safe|].
-    cbn. exact H1.
+    destruct (negb (str_is_name_start (slice_bytes text l))) eqn:El; [apply err_from_safe|].
+    cbn. split; [exact H1|]. intros Hz. unfold slice_len in Hz.
+    unfold slice_bytes, sub in El. rewrite Hz in El. cbn in El. discriminate.
 Qed.
 
 Lemma consume_eq_safe s : SInv s -> safe (consume_eq text s) (Ext s).
@@ -737,7 +738,8 @@ Proof.
       match goal with |- context [char_is_char ?c] => destruct (char_is_char c) end; cbn [negb]; [|exact I].
       cbn. split.
       + eapply Ext_trans; [exact H12|]. eapply Ext_trans; eauto.
-      + destruct (is_scalar _) eqn:Es; auto.
+      + cbn [RefOk]. match goal with |- is_scalar (if is_scalar ?n then _ else _) = true =>
+          destruct (is_scalar n) eqn:Es end; [exact Es|reflexivity].
     - pose proof (consume_name_safe s2 ltac:(apply H2)) as Hn.
       destruct (consume_name text s2) as [[name s3]|e|p|]; cbn in Hn; try exact I; [|contradiction].
       destruct Hn as [H3 _]. cbn. split; [eapply Ext_trans; eauto|].
